@@ -5,7 +5,7 @@ from vmon import core, snap
 from vmon.core import REC, SKIP
 from models import tiers as M
 from workloads import gen
-from checks.common import num, call, ents_of, scale_of, desc, check_result_tier, make_tier, rand_tier, receiver_changed
+from checks.common import num, call, ents_of, scale_of, desc, check_result_tier, make_tier, rand_tier, receiver_changed, refused_edits
 
 PROP = "C09"
 NSHARDS = {"quick": 8, "thorough": 16}
@@ -521,6 +521,8 @@ def _workload(tier, rng, shard, nshards):
             A = Textgrid(0.0, rng.choice([2.0, 3.5]))  # a stretch of time nothing is annotated in (yet)
         elif x < 0.08:
             B = Textgrid(0.0, rng.choice([1.0, 2.5]))
+        if rng.random() < 0.1:
+            refused_edits(rng.choice([A, B]), rng)
         C = call(A.appendTextgrid, B, rng.random() < 0.5)
         if C is not None and len(C.tierNames) and rng.random() < 0.7:
             # chaining: tiers that were only in A end before the combined textgrid does
